@@ -531,3 +531,66 @@ def stub_check_scoring(estimator=None, scoring=None, **kw):
 
 def scoring_globals():
     return {("verde.base.utils", "check_scoring"): stub_check_scoring}
+
+
+# ----------------------------------------------------------------------------
+# scipy.spatial.Delaunay as used by verde.mask.convexhull_mask
+# ----------------------------------------------------------------------------
+DELAUNAY_LOG = []
+ORACLE_LOG = []
+
+
+def _orient(a, b, c):
+    "twice the signed area of triangle a, b, c (z3 terms)"
+    return (b[0] - a[0]) * (c[1] - a[1]) - (b[1] - a[1]) * (c[0] - a[0])
+
+
+class StubDelaunay:
+    """Delaunay(P).find_simplex(X): != -1 for a query strictly inside the convex hull of the points
+    as passed, -1 strictly outside, free on the boundary. The hull of up to 4 points is the union of
+    the triangles of all point triples (orientation predicates). mode='oracle': one unconstrained
+    boolean per query (geometry is then decided in another harness)."""
+
+    mode = "geometry"
+
+    def __init__(self, points, **kw):
+        self.points = np.asarray(points, dtype=object)
+        if self.points.ndim != 2 or self.points.shape[1] != 2:
+            raise ValueError("points must be (n, 2)")
+        if self.points.shape[0] < 3:
+            raise ValueError("need at least 3 points")
+        DELAUNAY_LOG.append({"points": self.points.copy(), "queries": []})
+        self.rec = DELAUNAY_LOG[-1]
+
+    def find_simplex(self, X, **kw):
+        import itertools
+
+        X = np.atleast_2d(np.asarray(X, dtype=object))
+        self.rec["queries"].append(X.copy())
+        eng = E.ENGINE
+        out = np.empty(X.shape[0], dtype=np.intp)
+        P = [(T(p[0]), T(p[1])) for p in self.points]
+        for k in range(X.shape[0]):
+            q = (T(X[k, 0]), T(X[k, 1]))
+            L = eng.new("simplex", z3.IntSort())
+            eng.add(L >= -1, L <= 0)
+            if StubDelaunay.mode == "geometry":
+                strictly_in = []
+                strictly_out_all = []
+                for (a, b, c) in itertools.combinations(P, 3):
+                    o = _orient(a, b, c)
+                    o1, o2, o3 = _orient(a, b, q), _orient(b, c, q), _orient(c, a, q)
+                    inside = z3.Or(z3.And(o > 0, o1 > 0, o2 > 0, o3 > 0), z3.And(o < 0, o1 < 0, o2 < 0, o3 < 0))
+                    outside = z3.Or(o == 0, z3.And(o > 0, z3.Or(o1 < 0, o2 < 0, o3 < 0)), z3.And(o < 0, z3.Or(o1 > 0, o2 > 0, o3 > 0)))
+                    strictly_in.append(inside)
+                    strictly_out_all.append(outside)
+                eng.add(z3.Implies(z3.Or(*strictly_in), L == 0))
+                eng.add(z3.Implies(z3.And(*strictly_out_all), L == -1))
+            out[k] = eng.concretize_int(L)
+        if StubDelaunay.mode == "oracle":
+            ORACLE_LOG.append([bool(v != -1) for v in out])
+        return out
+
+
+def delaunay_globals():
+    return {("verde.mask", "Delaunay"): StubDelaunay}
